@@ -215,6 +215,10 @@ func (d *DeviceRemote) AddEntityAndFeatures(initialData bool, data *model.NodeMa
 
 		entity := d.Entity(entityAddress)
 		if entity == nil {
+			// a new entity can not be created without knowing its type
+			if ei.Description.EntityType == nil {
+				return nil, errors.New("nodemanagement.replyDetailedDiscoveryData: invalid EntityInformation.Description.EntityType")
+			}
 			entity = d.addNewEntity(*ei.Description.EntityType, entityAddress)
 			rEntites = append(rEntites, entity)
 		}
@@ -233,6 +237,10 @@ func (d *DeviceRemote) AddEntityAndFeatures(initialData bool, data *model.NodeMa
 		entity.RemoveAllFeatures()
 
 		for _, fi := range data.FeatureInformation {
+			// ignore incomplete feature information
+			if fi.Description == nil || fi.Description.FeatureAddress == nil {
+				continue
+			}
 			if reflect.DeepEqual(fi.Description.FeatureAddress.Entity, entityAddress) {
 				if f, ok := unmarshalFeature(entity, fi); ok {
 					entity.AddFeature(f)
@@ -256,7 +264,7 @@ func (d *DeviceRemote) CheckEntityInformation(initialData bool, entity model.Nod
 		return errors.New("nodemanagement.replyDetailedDiscoveryData: invalid EntityInformation.Description.EntityAddress")
 	}
 
-	if description.EntityAddress.Entity == nil {
+	if len(description.EntityAddress.Entity) == 0 {
 		return errors.New("nodemanagement.replyDetailedDiscoveryData: invalid EntityInformation.Description.EntityAddress.Entity")
 	}
 
@@ -280,7 +288,12 @@ func unmarshalFeature(entity api.EntityRemoteInterface,
 
 	fid := featureData.Description
 
-	if fid == nil {
+	// the address, type and role are required to create the feature
+	if fid == nil ||
+		fid.FeatureAddress == nil ||
+		fid.FeatureAddress.Feature == nil ||
+		fid.FeatureType == nil ||
+		fid.Role == nil {
 		return nil, false
 	}
 
